@@ -91,9 +91,16 @@ fn sizes(ctx: &Ctx) -> (usize, usize) {
 
 const SHARDS: usize = 64;
 
+/// one line of the stream: the verdict line, and (default build only) the feature-tag key of the
+/// rule when case actually mattered for it
+pub struct Line {
+    pub line: String,
+    pub case_mattered: Option<String>,
+}
+
 /// One shard of the verdict stream of this build (ignore_case build: R as is; default build: R
-/// i-prefixed). Returns (line, rule, documents, line of the un-prefixed rule in this build).
-fn shard_stream(ctx: &Ctx, shard: usize, with_plain: bool) -> Vec<(String, RuleAst, Vec<DVal>, Option<String>)> {
+/// i-prefixed).
+fn shard_lines(ctx: &Ctx, shard: usize, with_plain: bool) -> Vec<Line> {
     let (count, ndocs) = sizes(ctx);
     let mut rng = Rng::new(ctx.seed, "C15", shard as u64);
     let mut out = vec![];
@@ -101,16 +108,27 @@ fn shard_stream(ctx: &Ctx, shard: usize, with_plain: bool) -> Vec<(String, RuleA
         let (ast, docs) = case(&mut rng, ndocs);
         let subject = if is_icase_build() { ast.clone() } else { prefixed(&ast) };
         let line = verdict_line(&subject, &docs);
-        let plain = if with_plain { Some(verdict_line(&ast, &docs)) } else { None };
-        out.push((line, ast, docs, plain));
+        let case_mattered = if with_plain && line.starts_with('L') && verdict_line(&ast, &docs) != line { Some(gen::tag_key(&gen::tags(&ast))) } else { None };
+        out.push(Line { line, case_mattered });
     }
     out
 }
 
+/// the (rule, documents) behind line `idx` of shard `shard`
+fn regenerate(ctx: &Ctx, shard: usize, idx: usize) -> (RuleAst, Vec<DVal>) {
+    let (_, ndocs) = sizes(ctx);
+    let mut rng = Rng::new(ctx.seed, "C15", shard as u64);
+    let mut c = case(&mut rng, ndocs);
+    for _ in 0..idx {
+        c = case(&mut rng, ndocs);
+    }
+    c
+}
+
 /// the whole stream, computed on all cores, in shard order
-pub fn stream(ctx: &Ctx, with_plain: bool) -> Vec<(String, RuleAst, Vec<DVal>, Option<String>)> {
+pub fn stream(ctx: &Ctx, with_plain: bool) -> Vec<Line> {
     let next = std::sync::atomic::AtomicUsize::new(0);
-    let results: std::sync::Mutex<Vec<Option<Vec<(String, RuleAst, Vec<DVal>, Option<String>)>>>> = std::sync::Mutex::new((0..SHARDS).map(|_| None).collect());
+    let results: std::sync::Mutex<Vec<Option<Vec<Line>>>> = std::sync::Mutex::new((0..SHARDS).map(|_| None).collect());
     std::thread::scope(|s| {
         for _ in 0..ctx.threads {
             s.spawn(|| loop {
@@ -118,7 +136,7 @@ pub fn stream(ctx: &Ctx, with_plain: bool) -> Vec<(String, RuleAst, Vec<DVal>, O
                 if i >= SHARDS {
                     break;
                 }
-                let r = shard_stream(ctx, i, with_plain);
+                let r = shard_lines(ctx, i, with_plain);
                 results.lock().unwrap()[i] = Some(r);
             });
         }
@@ -135,8 +153,8 @@ pub fn emit(ctx: &Ctx) -> i32 {
     use std::io::Write;
     let out = std::io::stdout();
     let mut w = std::io::BufWriter::new(out.lock());
-    for (i, (line, _, _, _)) in stream(ctx, false).into_iter().enumerate() {
-        let _ = writeln!(w, "{} {}", i, line);
+    for (i, l) in stream(ctx, false).into_iter().enumerate() {
+        let _ = writeln!(w, "{} {}", i, l.line);
     }
     0
 }
@@ -165,22 +183,21 @@ pub fn run(ctx: &Ctx) -> i32 {
         }
     };
     let mut mine: Vec<String> = vec![];
-    let mut cases: Vec<(RuleAst, Vec<DVal>)> = vec![];
-    for (line, ast, docs, plain) in stream(ctx, true) {
-        // non-trivial: case actually mattered for this rule (un-prefixed default verdicts differ)
-        if line.starts_with('L') {
-            if plain.as_deref() != Some(line.as_str()) {
-                rep.nontrivial_key(&gen::tag_key(&gen::tags(&ast)));
+    let (_, ndocs_each) = sizes(ctx);
+    for l in stream(ctx, true) {
+        if l.line.starts_with('L') {
+            if let Some(tags) = &l.case_mattered {
+                rep.nontrivial_key(tags);
                 rep.count("rules_where_case_mattered");
             }
             rep.count("default_build.loaded");
         } else {
             rep.count("default_build.rejected");
         }
-        rep.evaluations += docs.len() as u64;
-        mine.push(line);
-        cases.push((ast, docs));
+        rep.evaluations += ndocs_each as u64;
+        mine.push(l.line);
     }
+    let first_case = Some(regenerate(ctx, 0, 0));
     let out = match child.wait_with_output() {
         Ok(o) => o,
         Err(e) => {
@@ -201,7 +218,10 @@ pub fn run(ctx: &Ctx) -> i32 {
     for (i, (a, b)) in mine.iter().zip(theirs.iter()).enumerate() {
         rep.evaluations += ndocs as u64;
         if a != b {
-            let (ast, docs) = cases[i].clone();
+            // regenerate the case from its shard (cases are not kept in memory)
+            let per = sizes(ctx).0 / SHARDS;
+            let (shard, idx) = (i / per.max(1), i % per.max(1));
+            let (ast, docs) = regenerate(ctx, shard, idx);
             let which = a.chars().zip(b.chars()).position(|(x, y)| x != y).unwrap_or(0);
             let doc = docs.get(which.saturating_sub(2)).cloned().unwrap_or(DVal::Obj(vec![]));
             rep.violation(
@@ -212,7 +232,7 @@ pub fn run(ctx: &Ctx) -> i32 {
             );
         }
     }
-    if let Some((ast, docs)) = cases.first() {
+    if let Some((ast, docs)) = first_case.as_ref() {
         rep.sample(json!({"rule": ast.to_text(), "i_prefixed_rule_for_default_build": prefixed(ast).to_text(), "documents": docs.len(), "default_build_line": mine.first(), "ignore_case_build_line": theirs.first()}));
     } else {
         rep.sample(json!({"default_build_line": mine.first(), "ignore_case_build_line": theirs.first()}));
